@@ -103,6 +103,35 @@ func genBlockFields(r *vu.Rng) []hpack.HeaderField {
 	return fs
 }
 
+// craftedBlock concatenates hand-written HPACK representations chosen to exercise the
+// interplay of the emit callback (invalid / truncated => emission disabled) with decoder
+// errors that do or do not depend on emission being enabled.
+func craftedBlock(r *vu.Rng) []byte {
+	parts := [][]byte{
+		{0x00, 0x01, 0x41, 0x01, 0x61},       // "A": "a"  (invalid name) literal, not indexed
+		{0x00, 0x01, 0x62, 0x82, 0xff, 0xff}, // "b": invalid Huffman, not indexed: error only while emitting
+		{0x10, 0x01, 0x62, 0x81, 0x00},       // never-indexed, Huffman value with bad padding: same
+		{0x40, 0x01, 0x66, 0x82, 0xff, 0xff}, // incremental indexing + invalid Huffman: always an error
+		{0x80},                               // index 0: always an error
+		{0xff, 0xff, 0xff, 0xff, 0xff, 0xff, 0xff, 0xff, 0xff, 0xff, 0xff, 0x7f}, // varint overflow
+		{0x00, 0x01, 0x63, 0x01, 0x64},       // "c": "d"
+		{0x82},                               // :method GET
+		{0x88},                               // :status 200
+		{0x40, 0x01, 0x67, 0x01, 0x68},       // "g": "h" indexed
+		{0xbe},                               // first dynamic entry
+		{0x00, 0x01, 0x61, 0x02, 0x61, 0x00}, // "a": "a\x00" invalid value
+		{0x3f, 0xe1, 0x1f},                   // dynamic table size update (4096): an error unless first
+		{0x00, 0x01, 0x3a, 0x00},             // ":": "" unknown pseudo
+	}
+	big := append([]byte{0x00, 0x01, 0x65, 0x7f, 0x00}, bytes.Repeat([]byte{'x'}, 127)...) // "e": 127 x
+	parts = append(parts, big)
+	var b []byte
+	for n := 1 + r.Intn(5); n > 0; n-- {
+		b = append(b, parts[r.Intn(len(parts))]...)
+	}
+	return b
+}
+
 type sess struct {
 	buf bytes.Buffer
 	fr  *http2.Framer
@@ -139,6 +168,9 @@ func (s *sess) headerBlock(r *vu.Rng) {
 		s.enc.WriteField(f)
 	}
 	block := append([]byte{}, s.hb.Bytes()...)
+	if r.Chance(1, 7) {
+		block = craftedBlock(r)
+	}
 	if r.Chance(1, 6) && len(block) > 0 { // corrupt the HPACK block
 		switch r.Intn(3) {
 		case 0:
@@ -400,7 +432,7 @@ func fieldTok(f hpack.HeaderField) string {
 // hpackAux observes, on two clones of the Framer's decoder taken before the call, what
 // hpack does with the fragments the call consumed: s1 with emission always enabled (fields,
 // first error), s2 with emission always disabled (errors that do not depend on emission).
-func hpackAux(s1, s2 *hpack.Decoder, frames []rawFrame) (aux string, all []hpack.HeaderField, s1ok bool) {
+func hpackAux(s1, s2 *hpack.Decoder, frames []rawFrame, o *vu.Out) (aux string, all []hpack.HeaderField, s1ok bool) {
 	var toks []string
 	closeErr := false
 	var cur []hpack.HeaderField
@@ -435,6 +467,7 @@ func hpackAux(s1, s2 *hpack.Decoder, frames []rawFrame) (aux string, all []hpack
 		}
 		all = append(all, cur...)
 		toks = append(toks, "d="+b01(e)+b01(a)+":"+strings.Join(fts, ","))
+		o.Stat("aux:errEnabled=" + b01(e) + ",errAlways=" + b01(a))
 		if rf.fh.Flags.Has(http2.FlagHeadersEndHeaders) {
 			ended = true
 			break
@@ -442,6 +475,9 @@ func hpackAux(s1, s2 *hpack.Decoder, frames []rawFrame) (aux string, all []hpack
 	}
 	if ended && !s2dead {
 		closeErr = s2.Close() != nil
+		if closeErr {
+			o.Stat("aux:closeErr")
+		}
 	}
 	return strings.TrimSpace("c=" + b01(closeErr) + " " + strings.Join(toks, " ")), all, ended && !s1dead
 }
@@ -516,7 +552,7 @@ func execRead(st *state, o *vu.Out) (string, string) {
 	s1ok := false
 	if st.meta {
 		var aux string
-		aux, allFields, s1ok = hpackAux(s1, s2, frames)
+		aux, allFields, s1ok = hpackAux(s1, s2, frames, o)
 		recorded = "read " + aux
 	}
 	// ---------------- property oracle (C07) ----------------
